@@ -17,7 +17,7 @@ CHECKS = {
  "C10": ("hpack-enc", "exploration",
    "property-based testing (proptest tapes): generated header-list/table-size histories through h2's Codec, round-trip oracle against an independent strict RFC 7541 decoder + h2's decoder, metamorphic split-vs-unsplit",
    "Generated search: every header block h2 emits for a generated history (header lists, SETTINGS_HEADER_TABLE_SIZE and MAX_FRAME_SIZE changes, partial writes) is reassembled by an independent frame parser and decoded by a strict reference decoder (rejects oversize/late/missing size updates) and by h2's own decoder; fields must equal the submission, fragments must concatenate to the unsplit encoding. Exploration, not proof: holds on everything generated.",
-   "Trusts refmodel::hpack (validated on 382 third-party fixture stories / 40k blocks by ./check selftest) and that encoder and decoder see table-size changes at the same history position.",
+   "Trusts refmodel::hpack (validated on 382 third-party fixture stories / 40k blocks by ./check selftest) and that encoder and decoder see table-size changes at the same history position. The decoder side across HEADERS/CONTINUATION fragment boundaries runs through the split engine (re-attributed): a size update or insertion lost at a boundary desynchronises the tables.",
    "DESIGN.md §3 C10"),
  "C11": ("hpack-dec", "exploration",
    "property-based testing + exhaustive enumeration: differential oracle (h2 hpack::Decoder / Codec vs independent RFC 7541 reference), metamorphic whole-vs-split through HEADERS+CONTINUATION, exhaustive Huffman strings ≤2 bytes and boundary prefix integers",
@@ -32,7 +32,7 @@ CHECKS = {
  "C01": ("sim-pair", "exploration",
    "property-based testing (stateful/model-based): generated client+server programs, configurations, schedules and chunkings on a deterministic simulator; oracle = sent-vs-received comparison of the API event log (heads, content-addressed body bytes, trailers, clean end) per stream",
    "Generated h2-client ↔ h2-server exchanges (request/response/interim/push programs with bodies around every size constant, windows 1…1 MiB, frame sizes, buffer limits, resets and drops) run on a single-threaded executor that polls a task only when woken, over a transport that cuts reads and writes by a generated tape. Whatever the receive API returns must be a prefix of what the send API accepted on the same stream (heads in order, bytes checked against a position-keyed content function, trailers), a clean end only for completely sent messages, and complete delivery in cooperative runs.",
-   "Trusts the simulator's transport/executor contracts. Both endpoints are h2; symmetric encode/decode mistakes are caught by the independent tap (frame parser + reference HPACK decoder) that also runs on every case.",
+   "Trusts the simulator's transport/executor contracts. Both endpoints are h2; symmetric encode/decode mistakes are caught by the independent tap (frame parser + reference HPACK decoder) that also runs on every case. What h2 never emits (padding of every length, empty and padding-only DATA) is sent by the reference peer in the flow engine and checked by cumulative position; a sixth of the requests call poll_informational again after the final head was taken.",
    "DESIGN.md §3 C01"),
  "C02": ("sim-pair", "exploration",
    "property-based testing: generated exchanges on the deterministic simulator; oracle = independent flow-control accountant over the tapped wire (credit = acked initial window ± acked SETTINGS deltas + delivered WINDOW_UPDATEs − DATA sent)",
@@ -42,17 +42,17 @@ CHECKS = {
  "C04": ("sim-pair", "exploration",
    "property-based testing: generated exchanges with resets/drops at every position; oracle = RFC 9113 §5.1/§6 sender-side stream automaton run over each endpoint's tapped output",
    "The frames each endpoint emits are run through a sender-side automaton written from RFC 9113: id order and parity, HEADERS/PUSH_PROMISE opening, nothing on idle streams, only permitted frames after END_STREAM/RST_STREAM (extra RST_STREAMs must be answers to peer frames), DATA only between final HEADERS and trailers, contiguous header blocks, stream-0 discipline, PUSH_PROMISE only while push is enabled and the parent is open.",
-   "Clauses that depend on what the peer has sent use delivery times from the tap (a frame counts as known to the endpoint once its first byte was delivered).",
+   "Clauses that depend on what the peer has sent use delivery times from the tap (a frame counts as known to the endpoint once its first byte was delivered). The raw-queue-client engine adds clients whose stream identifiers run out (initial_stream_id near 2^31-1), late frames for forgotten streams and requests issued afterwards.",
    "DESIGN.md §3 C04"),
  "C06": ("sim-pair", "exploration",
    "property-based testing over schedules: cooperative generated programs on an executor that polls only woken tasks; oracle = no application task pending at quiescence; stalled cases re-run with spurious polls to tell a lost wake-up from an accounting stall",
    "Cooperative programs (every reader reads and releases, every sender sends what it is assigned, connections driven by their own tasks) are run under generated schedules, chunkings, windows ≥ 1, limits ≥ 1 and mid-connection window changes. At quiescence (nothing runnable, nothing in flight) every application task must have finished. A stalled case is re-polled generously: completing then proves a lost wake-up; stalling still is an accounting stall.",
-   "Bounded liveness only (deadlock/lost-wakeup freedom per generated program and schedule), not fairness over unbounded time.",
+   "Bounded liveness only (deadlock/lost-wakeup freedom per generated program and schedule), not fairness over unbounded time. The raw-queue-client engine adds requests queued behind a scripted peer's stream limit with the slots released by peer END_STREAM / own END_STREAM / send_reset / dropped handles / peer RST_STREAM; tap oracle: every submitted, uncancelled request is on the wire at quiescence unless the acknowledged limit is reached.",
    "DESIGN.md §3 C06"),
  "C05": ("sim-pair", "exploration",
    "property-based testing: generated exchanges with small limits and every close path; oracle = slot accounting over the tapped wire (open-on-the-wire count vs acknowledged limit) and over the API log (streams surfaced concurrently; refusals only when slots may be taken)",
    "For every HEADERS that opens a client stream the number of earlier own streams not yet closed as far as the client can know must be below the limit in the last SETTINGS it acknowledged; the server never hands more concurrently active streams to accept() than it advertised, never surfaces a stream it refused, and refuses only when as many earlier streams may still be open; generated limits 1,2,3,5,100, resets, drops, early response-future drops while queued.",
-   "Send-side limit changes mid-connection need the RAW client engine (limit lowered by the peer); covered there once built.",
+   "Send side with a limit changed by the peer mid-connection (also while the client's writes are blocked) and every way of releasing a slot: raw-queue-client engine. Receive side under blocked writes, frames for refused streams and refused ids opened again: refusal rows of the server catalogue (re-attributed).",
    "DESIGN.md §3 C05"),
  "C07": ("sim-pair", "fault_enumeration",
    "property-based fault injection: generated exchanges × one generated ending (EOF, read error, write error, write-zero at a generated byte offset of either direction or on the idle connection; graceful/abrupt shutdown; dropping either connection object) on the deterministic simulator; oracle = nothing pending at quiescence, connection futures completed",
@@ -66,13 +66,13 @@ CHECKS = {
    "DESIGN.md §7.2 C08"),
  "C09": ("sim-raw", "exploration",
    "property-based testing: (generated legal prefix reaching a stream state) × (one item of an RFC 9113 violation / legal-but-unusual catalogue) × probe request; oracle = required reaction class per catalogue row (connection error / at least stream error / tolerated), containment (nothing surfaced, other streams keep working)",
-   "80 catalogue rows, each carrying the RFC sentence it encodes, are injected into an h2 server whose target stream was driven into one of seven states (none, open, half-closed remote, closed, reset by the peer, refused for exceeding the limit, open after a completed graceful-shutdown handshake); afterwards a PING barrier and a probe request decide: connection errors need GOAWAY(code≠0) and an ended connection, stream errors need at least RST_STREAM on that stream with the probe still served, legal-but-unusual items need no error at all and a served probe. Only the class of reaction is demanded, never a code.",
+   "82 catalogue rows, each carrying the RFC sentence it encodes, are injected into an h2 server whose target stream was driven into one of the states none, open, half-closed remote, closed, reset by the peer, refused for exceeding the limit, request rejected, during and after a graceful-shutdown handshake — optionally while the server's writes are blocked; afterwards a PING barrier and a probe request decide: connection errors need GOAWAY(code≠0) and an ended connection, stream errors need at least RST_STREAM on that stream with the probe still served, legal-but-unusual items need no error at all and a served probe. Only the class of reaction is demanded, never a code.",
    "Catalogue rows transcribed from RFC 9113 by hand (audit: harness/src/eng_raw.rs). A second engine puts an h2 client under test: 30 rows (PUSH_PROMISE misuse, frames on reserved streams, responses out of place, role-independent framing/SETTINGS/HPACK rows, legal-but-unusual traffic) x 6 states of the client's request, same oracle; forbidden promised streams must never surface as pushes.",
    "DESIGN.md §3 C09, App. A"),
  "C17": ("sim-pair", "exploration",
    "property-based testing: generated exchanges with send_reset(code∈u32)/handle drops at every position; oracle = RST_STREAM count/code/order per stream on the tapped wire against the API log, and error-info comparison (reason, remote/library/user, reset/go-away) on every handle",
    "Per stream and endpoint: the n-th RST_STREAM needs n−1 late peer frames (n when the first was not application-caused); RST after HEADERS on own streams; the first code equals the caller's code, CANCEL for an implicit cancel, NO_ERROR only from a server whose response was complete; an explicit send_reset on an unfinished open stream of a live connection must reach the wire; every error a handle reports as remote carries a code the peer really sent.",
-   "Codes are generated over the full u32 range (3/4 biased to the 14 registered codes). I/O failures: the Faults engine injects EOF, read errors (ConnectionReset and UnexpectedEof kinds), write errors and write-zero at generated offsets; every I/O error a handle reports must carry a text the simulated transport produced (a synthetic error made up by the library is a violation).",
+   "Discard oracle: no DATA of a stream that was not yet on the wire is written after send_reset (programs reset after END_STREAM with the body queued behind windows, the concurrency limit or a frame in flight). Peer resets delivered to the endpoint surface on the handles with the peer's code, also during a shutdown handshake (scripted peer). Codes are generated over the full u32 range (3/4 biased to the 14 registered codes). I/O failures: the Faults engine injects EOF, read errors (ConnectionReset and UnexpectedEof kinds), write errors and write-zero at generated offsets; every I/O error a handle reports must carry a text the simulated transport produced (a synthetic error made up by the library is a violation).",
    "DESIGN.md §3 C17, §7.2"),
  "C19": ("sim-pair", "exploration",
    "property-based testing: generated exchanges where every stream ends by some path and every handle is dropped; oracle = read-only statistics probe (guarded hook) at quiescence of the live connection against the a-priori idle values, wire/API check of the idle client close",
@@ -86,7 +86,7 @@ CHECKS = {
    "DESIGN.md §3 C13, App. B"),
  "C14": ("sim-raw", "exploration",
    "property-based testing: generated bursts of SETTINGS/PING interleaved with requests against an h2 server with responses in flight, half of them while the server's writes are blocked behind a finite unread pipe; oracle over the tap: ack sequences vs arrival sequences, plus the acked-settings view applied to everything sent afterwards",
-   "PING acknowledgements must echo payloads in arrival order, never outnumber or precede the frames they answer, and all owed acknowledgements must be on the wire at quiescence of the live connection; frames written after an ACK must obey the acknowledged values (frame size, window deltas on open streams incl. negative windows, HPACK table size with signalled reduction, concurrency) — violations of those monitors are re-attributed to C14.",
+   "PING acknowledgements must echo payloads in arrival order, never outnumber or precede the frames they answer, and all owed acknowledgements must be on the wire at quiescence of the live connection; frames written after an ACK must obey the acknowledged values (frame size, window deltas on open streams incl. negative windows, HPACK table size with signalled reduction, concurrency, ENABLE_PUSH switched in bursts while handlers push) — violations of those monitors are re-attributed to C14.",
    "Client role and local-settings-at-peer-ACK are covered through the PAIR engines' set_initial_window_size operations and C02/C03 accountants.",
    "DESIGN.md §3 C14"),
  "C15": ("sim-raw", "exploration",
@@ -97,22 +97,22 @@ CHECKS = {
  "C03": ("sim-raw", "exploration",
    "property-based testing (stateful): generated upload histories with every discard path and local window reconfigurations against an h2 server (reference peer) and in h2↔h2 exchanges; oracle = conservation invariants over a sampled read-only bookkeeping probe plus an independent advertised-window accountant on the tapped wire",
    "Every 8 executor steps the guarded statistics probe is sampled: connection-level `available + in flight` must equal the configured target (a leak or a double credit breaks the sum), and bytes counted in flight must be held by an application receive handle that is still alive (data discarded for reset, dropped, finished, refused streams or as padding must have been credited back). From the wire: no WINDOW_UPDATE may raise an advertised stream window above the initial window in force or the connection window above the target in force, nor above 2^31-1, and the window computable from the wire must equal the endpoint's own belief at the end.",
-   "Stream-level conservation is decided from the wire (over-credit) and behaviourally (cooperative transfers complete under C06 with windows down to 1 byte); the probe exposes connection-level counters only.",
+   "Stream-level conservation is decided from the wire (over-credit), by the exhausted-window oracle (no stream or connection window stays at zero at quiescence while the application holds none of its bytes; hundreds of updates falling due together, blocked writes) and behaviourally (cooperative transfers complete under C06 with windows down to 1 byte); the probe exposes connection-level counters only.",
    "DESIGN.md §3 C03"),
  "C16": ("sim-raw", "exploration",
    "property-based testing (stateful): generated capacity programs (reserve / wait-for-capacity / send / release / abandon, several streams, windows from 1 byte, max_send_buffer_size, mid-flight SETTINGS_INITIAL_WINDOW_SIZE changes) on an h2 server against the reference peer with generated window grants; oracle over API log + tap",
    "Whatever capacity() reports is spendable at once (send_data of that many bytes is accepted and the bytes reach the wire within the peer's windows); reported capacity never exceeds the request, the send-buffer bound or the windows computed independently from the tap; poll_capacity never yields a zero-sized grant while the stream can still send; capacity taken from a stream (lowered reservation, finished, reset or dropped stream, lowered initial window) becomes available to the other waiting streams: every program whose total demand fits the windows the peer granted completes.",
-   "Server role only (the send path is shared code); fairness between streams is judged only as 'nobody starves', not by proportion.",
+   "Server role only (the send path is shared code); fairness between streams is judged only as 'nobody starves', not by proportion. Conservation probe: with every open stream reserving 1 MiB, what the streams hold together equals exactly the connection window not on the wire (release paths: lowered reservation, END_STREAM, trailers with blocked body, reset, drop, SETTINGS). A program that only finishes on the simulator's diagnostic re-poll counts as not woken.",
    "DESIGN.md §3 C16"),
  "C18": ("sim-raw", "exploration",
-   "property-based testing with a metamorphic (scaling) oracle: generated hostile traffic patterns, limits, accept behaviour and chunkings against an h2 server or client, each run with n, 2n and 4n repetitions; oracle = plateau of sampled state counters and of the connection's live heap bytes (counting allocator) under doubling",
+   "property-based testing with a metamorphic (scaling) oracle: generated hostile traffic patterns, limits, accept behaviour and chunkings against an h2 server or client, each run with n, 2n and 4n repetitions (doubling further, up to 32n, while something still grows); oracle = plateau of sampled state counters and of the connection's live heap bytes (counting allocator) under doubling",
    "Patterns: open-and-reset (before / after accept), streams over the advertised limit, CONTINUATION flood, empty / tiny / padded DATA floods on an unread stream, PING and SETTINGS floods while the endpoint's writes are blocked, header lists beyond the advertised size, DATA on closed streams, malformed requests the library resets, WINDOW_UPDATE / PRIORITY / unknown-frame floods, abandoned accepted streams, generated frame-unit floods; against a client: PUSH_PROMISE, 1xx and stray RST_STREAM floods. Unless the endpoint terminated the connection with an error, stream records, buffered receive events, queued send frames, bytes consumed while its own writes are blocked and live heap bytes allocated inside Connection::poll must not grow over both doublings.",
    "Bounds are judged by scaling (a quota that is merely huge would pass); memory of the application-facing handles is not attributed to the connection.",
    "DESIGN.md §3 C18"),
  "C20": ("sim-pair", "exploration",
    "property-based testing over schedules: (a) the generated h2 client/server programs with an extra choice tape that polls runnable application tasks at transport callbacks inside a connection's poll (the points where the connection has released its locks), every sequential oracle re-evaluated on the interleaved trace; (b) randomised real-thread stress (OS threads using request, send, receive/flow-control and ping handles in parallel with both connection drivers) with a completion / integrity / no-poison oracle",
    "(a) is deterministic and shrinkable: handle operations (send_request, send_data, reserve/poll_capacity, release_capacity, send_reset, ping, handle clone/drop, body reads) happen in the middle of Connection::poll exactly where another thread could run; the connection must hold no lock there (locks_free probe), nothing may panic, poison or deadlock, and the delivery, flow-control, state-machine, concurrency, progress, wake-up, reset and release oracles must hold on the resulting trace — that is what 'equivalent to some sequential order' means operationally. (b) covers what one thread cannot: simultaneous lock acquisition (lock-order inversions deadlock within seconds) and lost wake-ups across threads; a stall is a verdict only when no involved thread consumed CPU time between two looks, so machine load cannot raise an alarm.",
-   "(b) is not reproducible at will (the replay file is the program; the observed violation is reported as observed). Weak-memory effects that x86 hardware does not exhibit are out of reach of both.",
+   "A third of the thread programs end each producer with a request whose http::Request extensions own the last reference to a stream handle (dropped inside send_request). (b) is not reproducible at will (the replay file is the program; the observed violation is reported as observed). Weak-memory effects that x86 hardware does not exhibit are out of reach of both.",
    "DESIGN.md §7.2 C20"),
 }
 
